@@ -165,6 +165,12 @@ def main():
                                   'component': toks[1] if len(toks) > 1 else '?'})
                 else:
                     diffs.append({'case': case_of[i], 'line': proto[i], 'verdict': v, 'component': 'protocol'})
+            # a property may bound the share of cases its driver sets aside as ill-conditioned: beyond it the
+            # correspondence is no longer shown (a systematic change hiding behind the tolerance)
+            msf = spec.get('max_skip_fraction')
+            if msf is not None and n_eval and verdict_counts.get('skip', 0) > msf * n_eval:
+                broken.append({'what': 'correspondence', 'name': 'skipped (ill-conditioned) cases: %d of %d exceed the allowed fraction %g'
+                               % (verdict_counts.get('skip', 0), n_eval, msf)})
             if not harness_done and only is None:
                 notes.append('harness stopped before finishing all cases (time budget)')
 
